@@ -95,9 +95,12 @@ REG.contract(
     f"{MOD}:ComponentsFileSystemFinder._is_path_valid", prop=P, types={"path": Str}, result=Bool, watch=_watch_valid,
     modifies=[], raises={},
     locals={"allowed_patterns": PATTERNS, "forbidden_patterns": PATTERNS},
+    reveal=["c17_exposed"],
     ensures={
         # from the property: exposed iff the name ends with an allowed suffix or matches an allowed pattern and matches no forbidden one
         "exactly_allowed_and_not_forbidden": lambda c: c["result"].t == z3.And(any_hit(ALLOWED, c["path"].t), z3.Not(any_hit(FORBIDDEN, c["path"].t))),
+        # the same fact under a NAME: callers (find / list, c17b) carry `exposed(path)` as an atom; only this unit unfolds it
+        "is_the_exposed_predicate": lambda c: c["result"].t == c.opaque("c17_exposed", [c["path"].t], lambda p: z3.And(any_hit(ALLOWED, p), z3.Not(any_hit(FORBIDDEN, p)))),
     },
 )
 
@@ -149,6 +152,12 @@ REG.contract(
             z3.And(within(ops.uf("abspath", S, S)(c["root"].t), Opt(Str).get(c["result"].t)),
                    ops.uf("fs_exists", S, z3.BoolSort())(Opt(Str).get(c["result"].t)),
                    any_hit(ALLOWED, Opt(Str).get(c["result"].t)), z3.Not(any_hit(FORBIDDEN, Opt(Str).get(c["result"].t))))),
+        # the same, with the predicate under its name (for callers that carry it as an atom)
+        "only_exposed_existing_files_below_root": lambda c: z3.Implies(
+            z3.Not(Opt(Str).is_none(c["result"].t)),
+            z3.And(within(ops.uf("abspath", S, S)(c["root"].t), Opt(Str).get(c["result"].t)),
+                   ops.uf("fs_exists", S, z3.BoolSort())(Opt(Str).get(c["result"].t)),
+                   ops.uf("c17_exposed", S, z3.BoolSort())(Opt(Str).get(c["result"].t)))),
     },
 )
 
@@ -188,7 +197,7 @@ REG.lemma("lemma#defaults_forbid_python_and_templates", P, _lemma_defaults, note
 
 ASSUMES = ["A-PY", "A-INST", "A-RE", "A-DJ"]
 NOT_COVERED = [
-    "ComponentsFileSystemFinder.list / find (generator and loop over locations) are not under contract; they call _is_path_valid / find_location",
+    "ComponentsFileSystemFinder.__init__ (locations / storages from get_component_dirs) is not under contract: find / list assume its class invariant (one storage per location root); Django's get_files (storage walk, ignore patterns) and collectstatic are trusted",
     "user-supplied compiled patterns are opaque (rx_search)",
 ]
 
@@ -236,3 +245,5 @@ def _bounded_finder(tier, repo):
 
 REG.bounded_check("bounded#finder_list_and_find_expose_exactly_the_allowed_files", P, _bounded_finder,
                   note="ComponentsFileSystemFinder.list / find (loops over locations, storages) are not under contract: a real components directory with 14 files (allowed / forbidden suffixes, look-alikes, upper case, nested) is served through the real finder under 4 configurations; list() and find() must expose exactly the allowed, not forbidden files.  Observation (not a finding: the property does not say which string is matched): list() tests the path RELATIVE to the location, find() the ABSOLUTE path, so a compiled pattern that mentions a directory separator can hide a file from find() and not from list()")
+
+import contracts.c17b  # noqa: E402,F401  (find / list)
